@@ -36,7 +36,9 @@
 
   TIED ONLY (model = implementation on the explored inputs; the theorems above are about these functions)
   driver ops `helper_rot`, `lt_index`, `generated`, `required`, `inventory`, `needed`, `layout`, `stages`, `output`,
-  `scaleconst`, `scaledown`, `dft_layers` (exact exponents of every entry of the fully split factorisation).
+  `scaleconst`, `scaledown`, `mod1_gain`, `dft_layers` (exact exponents of every entry of the fully split factorisation, for
+  every format — doubled diagonals, repacking first matrix, masked last matrix — and both layouts `BitReversed ∈ {false,true}`:
+  model `genMatricesFull`, §11 of the model; the theorems of §6 are about the length-`slots`, non-bit-reversed case).
   That `mod1.EvaluateNew` consumes `Depth()` levels is taken from `stages`. The entries of MERGED matrices are floats in
   the code: `merged_is_product` (probe, real code) checks numerically what `dft_split_independent` proves for the model.
 
@@ -44,7 +46,9 @@
   "the message equals the input message within the precision announced", "the modular-reduction step approximates
   x mod 1 within its stated error": `bootstrap_precision`, `batch_bootstrap`, `c2s_s2c_inverse` — sine/cosine/arcsine
   approximation quality (`mod1`, `utils/cosine`), float64/big.Float DFT constants, encoding error, noise growth, and the
-  exactness of ModUp's integer multiplier. No separate probe of `mod1.EvaluateNew` against x mod 1.
+  exactness of ModUp's integer multiplier. The modular-reduction step itself: `mod1_step` (EvaluateNew / EvaluateAndScaleNew over
+  Mod1Type × DoubleAngle 0..3 × arcsine × scaling, inputs up to the end points ±(K-1)·Q ± 1/2); `double_angle_scaling` proves the
+  algebra of where the scaling must go, the approximation quality is measured.
   ShallowCopy wiring / concurrency: `shallowcopy_*` probes (runtime aliasing is outside the model).
 
   The model follows the code after the C18 fixes (/verif/fixes/C18-1…5): one rescaling per factorisation group,
@@ -453,6 +457,28 @@ example : (3 : ZMod 17) ^ (4 * 2 ^ 2) = 1 ∧ (3 : ZMod 17) ^ 8 ≠ 1 ∧
     1 ≤ (⟨true, 2, [1, 1], false, false, 1⟩ : MatLit).maxDepth ∧ 1 ≤ (⟨false, 2, [2], false, false, 1⟩ : MatLit).maxDepth := by
   decide
 
+/-! ## 7. `EvaluateAndScaleNew`: the scaling constant of the double-angle steps -/
+
+/-- **double_angle_scaling.** If the value entering the double-angle loop is `c·t` and the loop's constant starts at the
+    SAME `c` (`c = sqrt2pi · scaling^(1/2^DoubleAngle)`: the factor folded into the Chebyshev coefficients), then after `k`
+    steps the constant is `c^(2^k)` and the value is `c^(2^k) · T_{2^k}(t)`: the gain is `scaling`, `sqrt2pi^(2^k) = 1/2π`. -/
+theorem double_angle_scaling : ∀ (k : Nat) (c t : Int),
+    doubleAngleIter k (c, c * t) = (c ^ 2 ^ k, c ^ 2 ^ k * chebDouble k t)
+  | 0, c, t => by simp [doubleAngleIter, chebDouble]
+  | k + 1, c, t => by
+    have h := double_angle_scaling k (c * c) (2 * (t * t) - 1)
+    simp only [doubleAngleIter, doubleAngleStep, chebDouble]
+    rw [show 2 * (c * t * (c * t)) - c * c = c * c * (2 * (t * t) - 1) by ring, h,
+      show (c * c) ^ 2 ^ k = c ^ 2 ^ (k + 1) by rw [← pow_two, ← pow_mul, pow_succ, Nat.mul_comm]]
+
+/-- with a DIFFERENT constant (`b ≠ ±a`: e.g. the full scaling instead of its root) already the first step is off by
+    `a² − b²` -/
+theorem double_angle_mismatch (a b t : Int) :
+    (doubleAngleStep (b, a * t)).2 = a * a * (2 * (t * t) - 1) + (a * a - b * b) := by
+  simp only [doubleAngleStep]; ring
+
+example : doubleAngleIter 3 (3, 3 * 2) = (3 ^ 8, 3 ^ 8 * chebDouble 3 2) := by decide
+
 end Lattigo.Props.C18
 
 #print axioms Lattigo.Props.C18.encapsulation_confined
@@ -475,3 +501,5 @@ end Lattigo.Props.C18
 #print axioms Lattigo.Props.C18.scaleDown_level0_iff
 #print axioms Lattigo.Props.C18.dft_split_independent
 #print axioms Lattigo.Props.C18.dft_inverse
+#print axioms Lattigo.Props.C18.double_angle_scaling
+#print axioms Lattigo.Props.C18.double_angle_mismatch
